@@ -99,6 +99,13 @@ def scenarios(rng, quick):
     # enclosing one; three levels of nesting; the back stop ending the execution under a stalled top-level event
     have = {sc.name for sc in out}
     out += [w for w in engine_props.fan_witnesses() if w.name not in have]
+    # for the protocol tie (C06.matches_fan_protocol, the direct law) and the per-step monitors: the rest of the shared engine
+    # corpus and generated machines (the outcome laws of this check are about the scenarios above)
+    have = {sc.name for sc in out}
+    for sc in engine_props.corpus(rng, quick) + engine_props.generated(rng, 100 if quick else 1500, 2):
+        if sc.name not in have and sc.sm_type == "STANDARD" and not sc.extra.get("machines"):
+            sc.extra["tie_only"] = True
+            out.append(sc)
     return out
 
 
@@ -147,7 +154,7 @@ class expect(object):
     @staticmethod
     def post(scn, fv, pre, m):
         probs = []
-        if m is not None and "TimeoutSeconds" not in scn.machine:      # (the reference semantics has no execution time limit)
+        if m is not None and "TimeoutSeconds" not in scn.machine and not scn.extra.get("tie_only"):      # (the reference semantics has no execution time limit)
             mv = c01.model_view(m)
             if mv["status"] in ("SUCCEEDED", "FAILED"):
                 if fv.get("status") != mv["status"]:
